@@ -1,7 +1,7 @@
 (** C25 — Client recovery and upgrade are gated and touch only the subject.
     Statements only; proofs are in TmVerify/WorldFacts.v (model: TmVerify/World.v, re-computed on every
     `tmverify` harness history). *)
-From IBC Require Import Lib.Bytes Lib.Dec Core.Height Core.HeightFacts TmVerify.Util TmVerify.World TmVerify.WorldFacts.
+From IBC Require Import Lib.Bytes Lib.Dec Core.Height Core.HeightFacts TmVerify.Util TmVerify.World TmVerify.WorldFacts TmVerify.Writes.
 Local Open Scope N_scope.
 
 (** RecoverClient returns Ok only if subject and substitute are both tendermint clients, the subject is not
@@ -116,6 +116,24 @@ Proof.
               (fun ops w cid => run_frame vmem vnon enc_client enc_cons ops w cid)).
 Qed.
 Print Assumptions C25_no_other_client_changes.
+
+(** Store writes of CheckSubstituteAndUpdateState (the model of the Set/Delete calls it issues on its two client
+    stores, re-computed against write-tracing stores on every recovery the harness runs): nothing is ever written
+    or deleted in the substitute's namespace; a successful call writes exactly the consensus state at the
+    substitute's latest height, its processed time, processed height and iteration key, and the client state, all in
+    the subject's namespace; and every successful 02-client recovery goes through such a successful call. *)
+Theorem C25_recovery_writes_subject_namespace_only :
+  (forall c s, Forall in_subject (snd (check_substitute_writes c s))) /\
+  (forall c s ws, check_substitute_writes c s = (Ok, ws) ->
+     is_matching c s = true /\ (exists e, hlookup (c_latest s) (c_cons s) = Some e) /\
+     ws = [(NSubject, WSet, KCons (c_latest s)); (NSubject, WSet, KPTime (c_latest s));
+           (NSubject, WSet, KPHeight (c_latest s)); (NSubject, WSet, KIter (c_latest s));
+           (NSubject, WSet, KClientState)]) /\
+  (forall w a b w', recover_client w a b = (w', Ok) ->
+     exists c s, get_client w a = Some (Tm c) /\ get_client w b = Some (Tm s) /\
+                 fst (check_substitute_writes c s) = Ok).
+Proof. exact (conj check_substitute_writes_subject_only (conj check_substitute_writes_ok recover_ok_writes)). Qed.
+Print Assumptions C25_recovery_writes_subject_namespace_only.
 
 (** non-vacuity: a frozen subject is recovered from an active substitute; an upgrade with a shrinking
     unbonding period scales the trusting period (14d * 7d / 21d). *)
